@@ -52,6 +52,45 @@ CLAIMED = {
         note=NOTE + "corr/cov/r2/distance statistics are pandas/sklearn/scipy (external): only shape and diagonal are claimed.",
         technique="Lean 4 theorems on a list model of untied_rank_/to_dataframe + differential check, exhaustive over short dense rankings",
     ),
+    "C01": dict(
+        text="Proof: every selection operation of the Lean model of data.py (dm[...] with label / label list / slice / mask, loc and iloc with "
+             "row and (rows, cols) selectors incl. single row and single column, copy, to_dict/mkdm round trip) is proved to yield a SubView "
+             "(each surviving criterion keeps its own objective, weight, dtype and column looked up by label, each alternative its own row) in "
+             "the requested order; SubView is reflexive and transitive, so every finite chain is covered by induction; objective aliases: "
+             "table regenerated from the source on every run and decided against an independent classifier. Pre-fix behaviours kept as _v0 "
+             "with decided witnesses. Tie: random selector chains (length 1-6) vs the model, by-label oracle, exhaustive chains <= 2 on 3x3.",
+        note=NOTE + "pandas selection / dtype semantics are external (modelled, validated by the chains); int64 above 2^40 not generated.",
+        technique="Lean 4 refinement-style theorem (SubView invariant by induction over selection chains) + regenerated alias table decided + differential check",
+    ),
+    "C08": dict(
+        text="Proof: concordance = total weight of the criteria where a is at least as good; discordance = largest adverse difference over the "
+             "largest range; ELECTRE1 outrank iff thresholds, kernel iff no incoming edge; weights_outrank as specified (iff weight sums) and "
+             "as called (characterised; proved different: known finding K1); strong / weak graphs iff documented thresholds; distillation: "
+             "round spec, termination, every alternative ranked exactly once, ranks contiguous, inverse ranking = reflection, final rank = "
+             "dense rank of the mean. Tie: dyadic inputs hitting thresholds exactly + arbitrary doubles off-boundary; discrete layers "
+             "recomputed by the model from the implementation's own numbers; independent Python distillation as oracle.",
+        note=NOTE + "K1 (matrix_wor) is printed as KNOWN-FINDING only when the implementation agrees with the model of the call as coded.",
+        technique="Lean 4 theorems on the ELECTRE model (Finset sums, sup', list recursion with fuel) + differential check with exact boundary cases",
+    ),
+    "C14": dict(
+        text="Proof: for the Lean model of filters.py (pairing loop, arithmetic / set / function masks, FilterNonDominated) an alternative "
+             "survives iff every condition holds on the criterion it names; invariance under permutation of the written conditions and of the "
+             "matrix columns; survivors are a sublist with unaltered rows; missing-criterion policy as iff; non-dominated iff no (strict) "
+             "dominator; the pre-fix dict-order pairing refuted by a decided witness. Tie: all filter classes, random key orders, absent "
+             "criteria, both flags; exhaustive small matrices in the thorough tier.",
+        note=NOTE + "user functions of Filter are assumed element-wise (np.apply_along_axis passes whole columns).",
+        technique="Lean 4 theorems on a list model of the filters (iff, permutation invariance, sublist) + differential check incl. exhaustive enumeration",
+    ),
+    "C17": dict(
+        text="Proof: the Lean model of diff / equals / aequals / == / != for decision matrices, results and rank comparators (NumPy allclose "
+             "one-sided tolerance, shape guards, object-dtype fallback, dict_allclose for extras, MISSING members) is total, an object equals "
+             "its copy, exact equality is symmetric and implies tolerant equality, != is the negation of ==, and a change of exactly one "
+             "member beyond tolerance is reported as exactly that member (each member of each kind). Pre-fix behaviours refuted by decided "
+             "witnesses (raise on 3 vs 2, broadcasting, ignored tolerance, asymmetry, object dtype). Tie: generated pairs over all kinds, "
+             "tolerances and shapes vs the model; property oracle on the implementation.",
+        note=NOTE + "np.allclose / np.array_equal semantics are external (modelled).",
+        technique="Lean 4 theorems on a model of the comparison stack over ordered fields + differential check on generated object pairs",
+    ),
 }
 PENDING = "check not built yet (planned in DESIGN.md section 6); not claimed until its model, theorems and correspondence exist"
 
